@@ -1,6 +1,7 @@
 package main
 
 import (
+	"time"
 	"encoding/binary"
 	"fmt"
 	"net"
@@ -180,7 +181,11 @@ func c19stream(stream []int, schema int) ([]*entities.Message, []c19expect) {
 		m.SetExportTime(uint32(1600000000 + i))
 		m.SetSequenceNum(uint32(100 + i))
 		m.SetObsDomainID(uint32(7 + i))
-		m.SetExportAddress(fmt.Sprintf("10.1.1.%d", i+1))
+		addr := fmt.Sprintf("10.1.1.%d", i+1)
+		if i%2 == 1 {
+			addr = fmt.Sprintf("2001:db8::%x", i+1) // every other exporter is an IPv6 one
+		}
+		m.SetExportAddress(addr)
 		if el.tmpl {
 			set.PrepareSet(entities.Template, 256)
 			var els []entities.InfoElementWithValue
@@ -195,7 +200,7 @@ func c19stream(stream []int, schema int) ([]*entities.Message, []c19expect) {
 			for _, r := range el.recs {
 				rec, want := c19record(r[0] == 1, r[1], schema, r[2])
 				set.AddRecordV2(rec.GetOrderedElementList(), 256)
-				exp = append(exp, c19expect{want, uint32(1600000000 + i), uint32(100 + i), uint32(7 + i), fmt.Sprintf("10.1.1.%d", i+1)})
+				exp = append(exp, c19expect{want, uint32(1600000000 + i), uint32(100 + i), uint32(7 + i), addr})
 			}
 		}
 		m.AddSet(set)
@@ -204,7 +209,41 @@ func c19stream(stream []int, schema int) ([]*entities.Message, []c19expect) {
 	return msgs, exp
 }
 
-func c19check(stream []int, schema int) *[2]string {
+// c19ackProducer models an asynchronous producer with Return.Successes: bounded input and acknowledgement
+// channels (256 each, sarama's default ChannelBufferSize); every message taken from the input is
+// acknowledged on Successes().
+type c19ackProducer struct {
+	c19producer
+	succ chan *sarama.ProducerMessage
+}
+
+func newC19ackProducer() *c19ackProducer {
+	p := &c19ackProducer{c19producer: c19producer{in: make(chan *sarama.ProducerMessage, 256), done: make(chan struct{})}, succ: make(chan *sarama.ProducerMessage, 256)}
+	go func() {
+		for m := range p.in {
+			p.got = append(p.got, m)
+			p.succ <- m
+		}
+		close(p.done)
+	}()
+	return p
+}
+
+func (p *c19ackProducer) Successes() <-chan *sarama.ProducerMessage { return p.succ }
+
+// c19big is outside the enumerated alphabet: one data message with 600 records, used by the
+// acknowledged-mode pass (more records than the producer's channels hold).
+var c19big = func() c19elem {
+	e := c19elem{"Data(600 records)", false, nil}
+	for i := 0; i < 600; i++ {
+		e.recs = append(e.recs, [3]int{i % 2, 1 + i%2, 10 + i})
+	}
+	return e
+}()
+
+func c19check(stream []int, schema int) *[2]string { return c19checkMode(stream, schema, false) }
+
+func c19checkMode(stream []int, schema int, ack bool) *[2]string {
 	var conv convertor.IPFIXToKafkaConvertor
 	var mk func() proto.Message
 	if schema == 1 {
@@ -212,19 +251,37 @@ func c19check(stream []int, schema int) *[2]string {
 	} else {
 		conv, mk = convtest.NewFlowType2Convertor(), func() proto.Message { return &protobuf.FlowType2{} }
 	}
-	kp, err := producer.NewKafkaProducer(producer.ProducerInput{KafkaVersion: sarama.DefaultVersion, KafkaTopic: "flows-topic", ProtoSchemaConvertor: conv})
+	kp, err := producer.NewKafkaProducer(producer.ProducerInput{KafkaVersion: sarama.DefaultVersion, KafkaTopic: "flows-topic", ProtoSchemaConvertor: conv, KafkaLogSuccesses: ack})
 	if err != nil {
 		return fail("setup", "%v", err)
 	}
 	fp := newC19producer()
-	kp.SetSaramaProducer(fp)
+	if ack {
+		ap := newC19ackProducer()
+		fp = &ap.c19producer
+		kp.SetSaramaProducer(ap)
+	} else {
+		kp.SetSaramaProducer(fp)
+	}
 	msgs, exp := c19stream(stream, schema)
 	ch := make(chan *entities.Message, len(msgs))
 	for _, m := range msgs {
 		ch <- m
 	}
 	close(ch)
-	kp.PublishIPFIXMessages(ch)
+	if ack {
+		// publishing waits for acknowledgements: a producer that deadlocks against the bounded channels
+		// must end as a violation, not as a hung check (normal duration: milliseconds)
+		fin := make(chan struct{})
+		go func() { kp.PublishIPFIXMessages(ch); close(fin) }()
+		select {
+		case <-fin:
+		case <-time.After(30 * time.Second):
+			return fail("publish-stuck", "with success logging enabled, publishing a stream carrying %d data records had not finished after 30 s (%d messages reached the producer)", len(exp), len(fp.got))
+		}
+	} else {
+		kp.PublishIPFIXMessages(ch)
+	}
 	fp.Close()
 	if len(fp.got) != len(exp) {
 		return fail("message-count", "%d Kafka messages published, the stream carries %d data records", len(fp.got), len(exp))
@@ -336,13 +393,36 @@ func runC19(tier, replay string) int {
 			}
 		}
 	}
+	// acknowledged mode (KafkaLogSuccesses): every stream of length <= 2 over the alphabet, and streams with a
+	// 600-record message
+	c19alphabet = append(c19alphabet, c19big)
+	for schema := 1; schema <= 2 && rep.Violations() == 0; schema++ {
+		var ss [][]int
+		for a := 0; a < N; a++ {
+			ss = append(ss, []int{a})
+			for b := 0; b < N; b++ {
+				ss = append(ss, []int{a, b})
+			}
+		}
+		ss = append(ss, []int{0, N, 2}, []int{N}, []int{4, N, N, 3})
+		for _, st := range ss {
+			streams++
+			for _, k := range st {
+				records += len(c19alphabet[k].recs)
+			}
+			if res := c19checkMode(st, schema, true); res != nil {
+				rep.Report(fmt.Sprintf("FlowType%d,acknowledged", schema), res[0], fmt.Sprintf("stream %v with success logging: %s", names(st), res[1]), map[string]interface{}{"stream": names(st), "schema": schema, "ack": true}, nil)
+				break
+			}
+		}
+	}
 done:
 	fmt.Printf("C19 %s: streams=%d records published and decoded=%d violations=%d\n", tier, streams, records, rep.Violations())
 	ev := &common.Evidence{PropertyID: "C19", Tier: tier}
 	ev.Coverage = common.Coverage{
 		"states": streams, "transitions": records, "traces_validated_against_impl": streams, "samples": samples,
 		"evaluations": streams, "distinct_nontrivial": streams,
-		"rule":       fmt.Sprintf("every stream of length 1..%d over {template message, data message with 0 records, 1 (IPv4 typical), 1 (IPv6 maximal), 2 (IPv4 maximal then IPv4 zero), 3 (IPv6, IPv4, IPv6 zero)} x both shipped proto schemas through PublishIPFIXMessages with a capturing producer that keeps every message by reference until the end (as an unflushed async producer does); oracle: one message per data record in stream+record order, none for templates, configured topic, 4-byte big-endian length + exactly that many bytes, protobuf decodes to the record's values (table written from flow.proto) and the carrying message's export time / sequence / domain / exporter address, and the consumer-side decoder accepts it. Streams are distinct by construction", maxLen),
+		"rule":       fmt.Sprintf("every stream of length 1..%d over {template message, data message with 0 records, 1 (IPv4 typical), 1 (IPv6 maximal), 2 (IPv4 maximal then IPv4 zero), 3 (IPv6, IPv4, IPv6 zero)} x both shipped proto schemas through PublishIPFIXMessages with a capturing producer that keeps every message by reference until the end (as an unflushed async producer does); oracle: one message per data record in stream+record order, none for templates, configured topic, 4-byte big-endian length + exactly that many bytes, protobuf decodes to the record's values (table written from flow.proto) and the carrying message's export time / sequence / domain / exporter address, and the consumer-side decoder accepts it and recovers the same values; exporter addresses alternate between IPv4 and IPv6; in addition every stream of length <= 2 and three streams with a 600-record message are published with KafkaLogSuccesses through a producer whose input and acknowledgement channels hold 256 messages each. Streams are distinct by construction", maxLen),
 		"exhaustive": true,
 	}
 	ev.WallS = common.Since(rep.Start)
